@@ -462,6 +462,24 @@ def run_history(args):
             fails.append(dict(kind='fresh-fit', op=opdesc, step=len(steps), model=j, data=d, maxdiff=repr(dm), tol=tol,
                               warm=warm, cls=it['cls'], property_level=not (okf1 and okf2),
                               not_finite=blown, hit_max_iter=hit_max_iter(m, iters)))
+        # statistics and the estimated scale must be those of the fresh model too
+        # (sample weights are cast to float32 by fit: a grid-search candidate is handed an explicit array of ones where a
+        #  user-level fit without weights works in float64, so likelihood-type statistics agree to float32 accuracy only)
+        stol = max(2e-6, 50.0 * MSETS[it['mset']][0]) if it['cls'] not in ('linear', 'expectile', 'generic') else 2e-6
+        worst, wkey = 0.0, None
+        for key in ('edof', 'scale', 'deviance', 'AIC', 'loglikelihood', 'se', 'GCV', 'UBRE'):
+            a_, b_ = m.statistics_.get(key), fm.statistics_.get(key)
+            if a_ is None and b_ is None:
+                continue
+            _, dd = oracle_close(a_, b_, stol) if (a_ is not None and b_ is not None) else (False, float('inf'))
+            if dd > worst:
+                worst, wkey = dd, 'statistics_[%r]' % key
+        _, dd = oracle_close(m.distribution.scale, fm.distribution.scale, stol)
+        if dd > worst:
+            worst, wkey = dd, 'distribution.scale'
+        if worst > stol:
+            fails.append(dict(kind='fresh-fit-statistics', op=opdesc, step=len(steps), model=j, data=d, what=wkey, maxdiff=repr(worst),
+                              tol=stol, warm=warm, cls=it['cls'], property_level=worst > stol * FAIL_MARGIN))
         # the term state must be that of the fresh model (edge knots, categories)
         o1 = [(t.edge_knots_.tolist() if hasattr(t.edge_knots_, 'tolist') else list(t.edge_knots_), t.n_coefs)
               for t in m.terms if not t.isintercept]
@@ -846,6 +864,7 @@ ORACLE_TEXT = {
     'query-not-pure': 'predict / intervals / partial dependence / likelihood / residuals / summary / sample / gridsearch(keep_best=False) leave the model bit-identical',
     'fresh-fit': 'fit(X, y) of a model with a history == fit of a brand-new model with the same settings on the same data',
     'fresh-fit-termstate': 'edge knots / numbers of categories after fit == those of a brand-new model fitted on the same data',
+    'fresh-fit-statistics': 'statistics_ (edof, scale, deviance, AIC, loglikelihood, se, GCV/UBRE) and distribution.scale after fit == those of a brand-new model fitted on the same data',
     'fresh-fit-raised': 'a brand-new model with the same settings fits the same data',
     'predict-after-fit-raised': 'predict after a successful fit does not raise',
     'keep_best-not-winner': 'after gridsearch(keep_best=True) self predicts / reports exactly what the winner does',
@@ -867,7 +886,7 @@ def run_histories(ctx, pygam, pool, only=None):
     ctx.stream(st_iso, ORACLE_TEXT['isolation'])
     ctx.stream(st_fresh, ORACLE_TEXT['fresh-fit'] + ' (1e-10 normal/identity, 20*tol otherwise; x10 before a failing input is declared)')
     ctx.stream(st_pure, ORACLE_TEXT['query-not-pure'])
-    stmap = {'isolation': st_iso, 'query-not-pure': st_pure, 'fresh-fit': st_fresh, 'fresh-fit-termstate': st_fresh,
+    stmap = {'isolation': st_iso, 'query-not-pure': st_pure, 'fresh-fit': st_fresh, 'fresh-fit-termstate': st_fresh, 'fresh-fit-statistics': st_fresh,
              'fresh-fit-raised': st_fresh, 'predict-after-fit-raised': st_fresh, 'keep_best-not-winner': st_iso,
              'copy-differs': st_iso, 'call-raised': st_state, 'expression-mutated': st_iso, 'gridsearch-self-not-first': st_state}
     nh = 200 if ctx.tier == 'quick' else 3000
